@@ -13,6 +13,16 @@ excs = st.tuples(st.sampled_from(["ValueError", "KeyError", "RuntimeError", "HEr
 POLS = ["continue", "rewait", "propagate", "terminate", "raise"]
 
 
+def weighted(pairs):
+    """one_of() silently drops repeated alternatives, so weights go through an index draw"""
+    idx = []
+    strategies = []
+    for i, (s, w) in enumerate(pairs):
+        strategies.append(s)
+        idx.extend([i] * w)
+    return st.sampled_from(idx).flatmap(lambda i: strategies[i])
+
+
 def policies(allowed=None, other=True, bias=(), dl=None):
     base = [p for p in POLS if allowed is None or p in allowed]
     alts = [st.sampled_from(list(bias) + base)]
@@ -21,23 +31,23 @@ def policies(allowed=None, other=True, bias=(), dl=None):
     return st.one_of(*alts)
 
 
-def cond_trees(depth=3, max_arity=4):
-    leaf = st.one_of(
-        st.tuples(st.just("ev"), small).map(list),
-        st.tuples(st.just("to"), delays, vals).map(list),
-        st.tuples(st.just("to"), delays, vals).map(list),
-        st.tuples(st.just("proc"), small).map(list),
-    )
+def cond_trees(depth=3, max_arity=4, delays=delays):
+    leaf = weighted([
+        (st.tuples(st.just("ev"), small).map(list), 2),
+        (st.tuples(st.just("to"), delays, vals).map(list), 3),
+        (st.tuples(st.just("proc"), small).map(list), 1),
+    ])
 
     def extend(children):
-        return st.one_of(
-            st.tuples(st.sampled_from(["all", "any"]), st.lists(children, min_size=0, max_size=max_arity)).map(list),
-            st.tuples(st.sampled_from(["and", "or"]), children, children).map(list),
-        )
+        return weighted([
+            (st.tuples(st.sampled_from(["all", "any"]), st.lists(children, min_size=2, max_size=max_arity)).map(list), 4),
+            (st.tuples(st.sampled_from(["and", "or"]), children, children).map(list), 2),
+            (st.tuples(st.sampled_from(["all", "any"]), st.lists(children, min_size=0, max_size=1)).map(list), 1),
+        ])
 
     t = leaf
     for _ in range(depth):
-        t = st.one_of(leaf, extend(t))
+        t = weighted([(leaf, 3), (extend(t), 1)])
     return extend(t)
 
 
@@ -61,20 +71,18 @@ def instrs(weights, pol=None, ipol=None, trees=None, delays=delays):
     }
     if trees is not None:
         table["wait_cond"] = st.tuples(st.just("wait_cond"), trees, pol, ipol).map(list)
-    alts = []
-    for op, w in weights.items():
-        alts.extend([table[op]] * w)
-    return st.one_of(*alts)
+    return weighted([(table[op], w) for op, w in weights.items()])
 
 
 def programs(weights, max_bodies=5, max_instrs=7, max_start=5, max_nev=4, pol=None, ipol=None, trees=None,
-             inits=(0, 0, 5, 2.5, 0.1), delay_set=None, min_nev=0, min_start=1):
+             inits=(0, 0, 5, 2.5, 0.1), delay_set=None, min_nev=0, min_start=1, min_instrs=1, min_bodies=1):
     dl = delays if delay_set is None else st.sampled_from(list(delay_set))
     ins = instrs(weights, pol, ipol, trees, delays=dl)
     return st.fixed_dictionaries({
         "init": st.sampled_from(list(inits)),
         "nev": st.integers(min_nev, max_nev),
-        "bodies": st.lists(st.lists(ins, min_size=1, max_size=max_instrs), min_size=1, max_size=max_bodies),
+        "bodies": st.lists(st.lists(ins, min_size=min_instrs, max_size=max_instrs), min_size=min_bodies,
+                           max_size=max_bodies),
         "start": st.lists(small, min_size=min_start, max_size=max_start),
     })
 
